@@ -162,7 +162,7 @@ def op_edit_nested_options(src, n):
 def op_add_other_platform(src, n):
     """a file that matches the patterns but is named for another platform (filter_by_platform makes
     it an 'extra' file: distributed, not built)"""
-    w(src, 'src/helper_windows%d.c' % n, 'int hw%d;\n' % n)
+    w(src, 'src/helper%d_windows.c' % n, 'int hw%d;\n' % n)
 
 
 def op_drop_find(src, n):
